@@ -30,6 +30,7 @@ SAMPLE_PER_CLASS = {"quick": 64, "thorough": 400}
 CONFIRM_CAP = 400
 ABNORMAL_CAP = 24                                 # stop isolating once this many lines crash / hang on their own
 TRACE_BATCHES = {"quick": 6, "thorough": 40}
+TRACE_MAX = 64 << 20
 GCC = ["gcc", "-E", "-P", "-x", "c++", "-std=gnu++20", "-w"]
 
 # spec event (computed by MacroRef on the reference run of the input) -> finding id
@@ -42,17 +43,42 @@ EVENT_CLASS = {
     "pasteempty": "C08-paste-placemarker",
     "hidearg": "C08-arg-outer-hidden",
     "litparam": "C08-param-in-literal",
+    "objhash": "C08-hash-in-object-macro",
+    "strchq": "C08-stringify-quote-in-char",
 }
 
 # --------------------------------------------------------------------------- rendering
-TOK = re.compile(r'"(?:[^"\\\n]|\\.)*"|\'(?:[^\'\\\n]|\\.)*\'|[A-Za-z_][A-Za-z_0-9]*|\d+|[^\sA-Za-z_0-9]')
+# one small C tokeniser for both preprocessors' output: literals, identifiers, pp-numbers (with
+# digit separators), punctuators by maximal munch -- `- -` and `--`, `& &` and `&&`, `- >` and `->`
+# are different token sequences
+TOK = re.compile(r'"(?:[^"\\\n]|\\.)*"|\'(?:[^\'\\\n]|\\.)*\'|[A-Za-z_][A-Za-z_0-9]*|\d(?:\'?[A-Za-z0-9_])*'
+                 r'|<<=|>>=|\.\.\.|->\*|<=>|::|->|\+\+|--|<<|>>|<=|>=|==|!=|&&|\|\||[-+*/%&|^]=|##|[^\sA-Za-z_0-9]')
 
 
-def defline(l):
+def norm(t):
+    """parse_file prints the value of an integer literal: 1'000 and 1000 are the same token."""
+    return t.replace("'", "") if t[0].isdigit() else t
+
+
+def tight_body(body):
+    """Spelling of a replacement list with no white space between an operator and a neighbouring
+    identifier / number (`-x`, `x-y`); two operators and two words stay apart."""
+    out = []
+    for i, t in enumerate(body):
+        if i and (re.match(r"\w", t[0]) is not None) == (re.match(r"\w", body[i - 1][-1]) is not None):
+            out.append(" ")
+        elif i and (t in ("#", "##") or body[i - 1] in ("#", "##", ",")):
+            out.append(" ")
+        out.append(t)
+    return "".join(out)
+
+
+def defline(l, tight=False):
+    body = tight_body(l["body"]) if tight else " ".join(l["body"])
     if l["fn"]:
         ps = list(l["params"]) + (["..."] if l["va"] else [])
-        return "#define %s(%s) %s" % (l["m"], ", ".join(ps), " ".join(l["body"]))
-    return ("#define %s %s" % (l["m"], " ".join(l["body"]))).rstrip()
+        return ("#define %s(%s) %s" % (l["m"], ", ".join(ps), body)).rstrip()
+    return ("#define %s %s" % (l["m"], body)).rstrip()
 
 
 def d0_of(rec):
@@ -98,7 +124,12 @@ def layout(toks, style):
             depth -= 1
         if i + 1 < len(toks):
             nxt = toks[i + 1]
-            if style == 4:
+            if style == 5:       # a comment between a name and the "(" that follows it
+                if nxt == "(" and re.match(r"[A-Za-z_]", t):
+                    out.append(" /* c */ " if i % 2 else " // c\n ")
+                else:
+                    out.append(" ")
+            elif style == 4:
                 if not (t in TIGHT or nxt in TIGHT):
                     out.append(" ")
             elif style == 1 and depth > 0 and t in ("(", ","):
@@ -119,7 +150,15 @@ def style_of(cid, k, rec):
         tab = d0_of(rec)[0]
         bodies = [l["body"] for l in rec["p"] if l["k"] == "def"] + [tab[m]["body"] for m in tab]
         return 4 if not any("#" in b for b in bodies) else 0
+    if n == 5 and cid % 2 == 0:
+        return 5
     return n if n < 4 and cid % 2 == 0 else 0
+
+
+def comment_before_paren(cid, k, rec):
+    toks = rec["p"][k]["toks"]
+    return style_of(cid, k, rec) == 5 and any(toks[i + 1] == "(" and re.match(r"[A-Za-z_]", toks[i])
+                                               for i in range(len(toks) - 1))
 
 
 def render_case(cid, rec, keep, reset=True):
@@ -133,7 +172,7 @@ def render_case(cid, rec, keep, reset=True):
     for k, l in enumerate(rec["p"]):
         kind = l["k"]
         if kind == "def":
-            out.append(defline(l))
+            out.append(defline(l, tight=(rec["f"] == "op" and cid % 2 == 1)))
         elif kind == "undef":
             out.append("#undef " + l["m"])
         elif kind == "push":
@@ -154,7 +193,7 @@ def render_case(cid, rec, keep, reset=True):
 def observe(text):
     """Projection of a preprocessor's output: case id -> {line k -> token spellings}."""
     res, cur = {}, None
-    toks = TOK.findall(text)
+    toks = [norm(t) for t in TOK.findall(text)]
     i, n = 0, len(toks)
     while i < n:
         t = toks[i]
@@ -174,19 +213,15 @@ def observe(text):
 
 
 def expected(o):
-    """The spec's token spellings for one line, cut by the same tokeniser (a pasted or stringized
-    token is one spelling in the spec and one token for the tokeniser)."""
-    r = []
-    for t in o["t"]:
-        r += [t] if t[0] in "\"'" else TOK.findall(t)
-    return r
+    """The spec's token spellings for one line (one spelling = one token)."""
+    return [norm(t) for t in o["t"]]
 
 
 # --------------------------------------------------------------------------- input classes
 OPEN = None      # ids of the finding classes that are still open (status "finding"); set by run_check
 
 
-def classes_of(rec, k):
+def classes_of(rec, k, cid=None):
     """Finding classes of Text line k of a program, computed from the INPUT: events of the
     reference run (dumped by the spec) and properties of the command line.  A class whose entry in
     known_findings.json is no longer an open finding (fixed / removed) does not take lines out of
@@ -194,6 +229,11 @@ def classes_of(rec, k):
     cls = [EVENT_CLASS.get(e, "C08-" + e) for e in rec["o"][k].get("e", [])]
     if d0_of(rec)[1]:
         cls.append("C08-bare-D")        # the program is run with a -DNAME option without a value
+    if cid is not None and comment_before_paren(cid, k, rec):
+        cls.append("C08-comment-before-paren")  # the renderer wrote a comment between a name and "("
+    toks = rec["p"][k]["toks"]
+    if "(" in toks and any(t[0].isdigit() and "'" in t for t in toks):
+        cls.append("C08-digit-separator-arg")   # an invocation with a digit separator in an argument
     cls = sorted(set(cls))
     return [c for c in cls if OPEN is None or c in OPEN]
 
@@ -518,7 +558,7 @@ def run_check(ctx):
                 n_out[o["x"]] = n_out.get(o["x"], 0) + 1
                 continue
             lines_of.setdefault(cid, set()).add(k)
-            cls = classes_of(rec, k)
+            cls = classes_of(rec, k, cid)
             if cls:
                 for c in cls:
                     by_class.setdefault(c, []).append((cid, k))
@@ -597,7 +637,7 @@ def run_check(ctx):
     class_stats = {c: dict(lines=len(v), sampled=0, disagree=0, crash=0, hang=0) for c, v in by_class.items()}
     for key, (st, got) in zip(keys, run.pmap(lambda ck: rp.alone(*ck), keys)):
         cid, k = key
-        cls = classes_of(recs[cid], k)
+        cls = classes_of(recs[cid], k, cid)
         for c in cls:
             s = class_stats[c]
             s["sampled"] += 1
@@ -623,16 +663,21 @@ def run_check(ctx):
         shared_jobs = [j for j in jobs if len(j) > 1]
         picked = shared_jobs[::max(1, len(shared_jobs) // nb)][:nb]
 
+        oversized = []
+
         def traced(ij):
             i, items = ij
             tr = os.path.join(ctx.tmp, "batch%03d.trace" % i)
             rp.parse_file(items, BATCH_TIMEOUT * 3, trace=tr)
+            if os.path.exists(tr) and os.path.getsize(tr) > TRACE_MAX:
+                oversized.append(tr)       # a runaway replacement; the replay of the batch reports it
+                return None
             return tr if os.path.exists(tr) else None
         btr = [t for t in run.pmap(traced, list(enumerate(picked))) if t]
         tv_b = validate_traces(ctx, [[t] for t in btr], "replay")
         ctr = corpus_traces(ctx)
         tv_c = validate_traces(ctx, [ctr[i::4] for i in range(4)], "corpus")
-        ctx.notes["trace_validation"] = dict(replay_batches=len(btr), replay=tv_b, corpus_files=len(ctr), corpus=tv_c)
+        ctx.notes["trace_validation"] = dict(oversized_traces_skipped=len(oversized), replay_batches=len(btr), replay=tv_b, corpus_files=len(ctr), corpus=tv_c)
         ctx.cov["traces_validated_against_impl"] += len(btr) + len(ctr)
         if tv_b["compared"] == 0:
             raise MachineryError("trace validation compared no replacement step (hooks silent?)")
